@@ -86,7 +86,17 @@ func (m Mapping) RingToReal(ring [][]MSlot) [][]RSlot {
 	for a, ra := range ring {
 		out[a] = make([]RSlot, len(ra))
 		for i, s := range ra {
-			out[a][i] = RSlot{T: m.T(s.T), V: m.V(s.V)}
+			v := m.V(s.V)
+			if s.T != 0 {
+				// instantiate the model's value tokens with different bit patterns of the same value:
+				// NaN with another payload than Go's canonical one, and negative zero
+				if math.IsNaN(v) && (a+i)%2 == 0 {
+					v = math.Float64frombits(0x7FF8000000000000)
+				} else if v == 0 && (a+i)%2 == 1 {
+					v = math.Copysign(0, -1)
+				}
+			}
+			out[a][i] = RSlot{T: m.T(s.T), V: v}
 		}
 	}
 	return out
